@@ -5,10 +5,12 @@
    schema/message.go concatToolCalls with its comparator and sort call -> Gen/ConcatToolCallCode.v —
    ARE the reference translation Model/ConcatCodeRef.v, about which
    Proofs/ConcatCodeRef.v proves that it computes the model's functions (theorems code_... of Props/C14.v).
-   The comparison is by conversion: renamed locals or a let-bound intermediate value leave the
-   terms convertible; a changed test, a reordered statement with another meaning, a dropped
-   nil filter, another sort function make these proofs fail. *)
-From Eino Require Import Base.Util Model.ConcatTable Model.Concat Model.ConcatStream Model.ConcatGenLib.
+   The comparison is by conversion first (renamed locals or a let-bound intermediate value leave the
+   terms convertible) and, where the terms are not convertible, POINTWISE (Proofs/ConcatAgreeTac.v: loop bodies
+   and continuations compared for every state, every test split): a nested test flattened, independent tests
+   swapped, an early continue against a nested if are proved equal; a changed test, a reordered statement with
+   another meaning, a dropped nil filter, another sort function make these proofs fail. *)
+From Eino Require Import Base.Util Model.ConcatTable Model.Concat Model.ConcatStream Model.ConcatGenLib Proofs.ConcatAgreeTac.
 From Eino Require Model.ConcatCodeRef Gen.ConcatCode Gen.ConcatStreamCode Gen.ConcatToolCallCode.
 
 Section Agree.
@@ -16,25 +18,37 @@ Context {U : UserFn}.
 
 Theorem gen_toSliceValue_agrees : forall vs,
   Gen.ConcatCode.gen_toSliceValue vs = Model.ConcatCodeRef.gen_toSliceValue vs.
-Proof. intros. reflexivity. Qed.
+Proof.
+  intros. first [reflexivity | unfold Gen.ConcatCode.gen_toSliceValue, Model.ConcatCodeRef.gen_toSliceValue; agree_descend].
+Qed.
+Hint Rewrite gen_toSliceValue_agrees : agree_db.
 
 Theorem gen_concatSliceValue_agrees : forall val,
   Gen.ConcatCode.gen_concatSliceValue val = Model.ConcatCodeRef.gen_concatSliceValue val.
-Proof. intros. reflexivity. Qed.
+Proof.
+  intros. first [reflexivity | unfold Gen.ConcatCode.gen_concatSliceValue, Model.ConcatCodeRef.gen_concatSliceValue; agree_descend].
+Qed.
+Hint Rewrite gen_concatSliceValue_agrees : agree_db.
 
 Theorem gen_concatMaps_agrees : forall self ms,
   Gen.ConcatCode.gen_concatMaps self ms = Model.ConcatCodeRef.gen_concatMaps self ms.
-Proof. intros. reflexivity. Qed.
+Proof.
+  intros. first [reflexivity | unfold Gen.ConcatCode.gen_concatMaps, Model.ConcatCodeRef.gen_concatMaps; agree_descend].
+Qed.
 
 Theorem gen_concatInterfaces_agrees : forall cm vs,
   Gen.ConcatCode.gen_concatInterfaces cm vs = Model.ConcatCodeRef.gen_concatInterfaces cm vs.
-Proof. intros. reflexivity. Qed.
+Proof.
+  intros. first [reflexivity | unfold Gen.ConcatCode.gen_concatInterfaces, Model.ConcatCodeRef.gen_concatInterfaces; agree_descend].
+Qed.
 
 End Agree.
 
 Theorem gen_tc_less_agrees : forall a b,
   Gen.ConcatToolCallCode.gen_tc_less a b = Model.ConcatCodeRef.gen_tc_less a b.
-Proof. intros. reflexivity. Qed.
+Proof.
+  intros. first [reflexivity | unfold Gen.ConcatToolCallCode.gen_tc_less, Model.ConcatCodeRef.gen_tc_less; agree_descend].
+Qed.
 
 Theorem gen_tc_sort_stable_agrees :
   Gen.ConcatToolCallCode.gen_tc_sort_stable = Model.ConcatCodeRef.gen_tc_sort_stable.
@@ -46,16 +60,24 @@ Proof. reflexivity. Qed.
 
 Theorem gen_concatStreamReader_agrees : forall X zero ci s,
   Gen.ConcatStreamCode.gen_concatStreamReader X zero ci s = Model.ConcatCodeRef.gen_concatStreamReader X zero ci s.
-Proof. intros. reflexivity. Qed.
+Proof.
+  intros. first [reflexivity | unfold Gen.ConcatStreamCode.gen_concatStreamReader, Model.ConcatCodeRef.gen_concatStreamReader; agree_descend].
+Qed.
 
 Theorem gen_ConcatMessageStream_agrees : forall X zero ci s,
   Gen.ConcatStreamCode.gen_ConcatMessageStream X zero ci s = Model.ConcatCodeRef.gen_ConcatMessageStream X zero ci s.
-Proof. intros. reflexivity. Qed.
+Proof.
+  intros. first [reflexivity | unfold Gen.ConcatStreamCode.gen_ConcatMessageStream, Model.ConcatCodeRef.gen_ConcatMessageStream; agree_descend].
+Qed.
 
 Theorem gen_concatToolCalls_agrees : forall ord chunks,
   Gen.ConcatToolCallCode.gen_concatToolCalls ord chunks = Model.ConcatCodeRef.gen_concatToolCalls ord chunks.
-Proof. intros. reflexivity. Qed.
+Proof.
+  intros. first [reflexivity | unfold Gen.ConcatToolCallCode.gen_concatToolCalls, Model.ConcatCodeRef.gen_concatToolCalls; agree_descend].
+Qed.
 
 Theorem gen_concatMessageArray_agrees : forall X zero ci is_nil_x mas,
   Gen.ConcatStreamCode.gen_concatMessageArray X zero ci is_nil_x mas = Model.ConcatCodeRef.gen_concatMessageArray X zero ci is_nil_x mas.
-Proof. intros. reflexivity. Qed.
+Proof.
+  intros. first [reflexivity | unfold Gen.ConcatStreamCode.gen_concatMessageArray, Model.ConcatCodeRef.gen_concatMessageArray; agree_descend].
+Qed.
